@@ -8,7 +8,8 @@ open Sexp
      -> "ok units=U instrs=I words=W" when the decoder accepts every unit, re-encoding the decoded
         code gives back exactly the input words, the verifier accepts the program and every
         table index is inside its table; otherwise "fail <stage> <unit>".
-   rs <hex>  -> outcome of the one-byte RS branch of setSpecial: ok | error | panic *)
+   rs <hex>  -> outcome of the one-byte RS branch of setSpecial: ok | error | panic
+   fields <ops> -> ops = space separated R:n G:n N F:i ; "ok" or "panic" (CSV-mode field slices) *)
 
 let atoms_z = function
   | List l -> List.map (function Atom a -> z_of_string a | _ -> failwith "atom") l
@@ -98,6 +99,15 @@ let verify (compiled : string) (tables : string) : string =
 let handle = function
   | ["verify"; compiled; tables] -> verify compiled tables
   | ["rs"; h] -> (match set_rs_short (bytes_of_hex h) with RsOk -> "ok" | RsError -> "error" | RsPanic -> "panic")
+  | ["fields"; ops] ->
+      let op_of w =
+        if w = "N" then ONF
+        else match String.split_on_char ':' w with
+          | ["R"; n] -> ORecord (z_of_string n)
+          | ["G"; n] -> OGetlineVar (z_of_string n)
+          | ["F"; i] -> OField (z_of_string i)
+          | _ -> failwith ("bad op " ^ w) in
+      (match f_run fs_init (List.map op_of (split_ws ops)) with Some _ -> "ok" | None -> "panic")
   | op :: _ -> "driver-error unknown-op " ^ op
   | [] -> "driver-error empty"
 
